@@ -3,6 +3,7 @@ package main
 import (
 	"go/token"
 	"sort"
+	"strings"
 )
 
 func init() {
@@ -29,6 +30,8 @@ func runC06(w *World, r *Report) {
 	r.Rule("embed", "child encodings are copied whole", 60)
 	r.Rule("nooverlap", "no two write records provably overlap", 100)
 	sizeRules(w, r, func(k *Kind) bool { return true })
+	r.Rule("order", "builders only extend the lists the encoder walks; they never reassign elements in place", 7)
+	orderRule(w, r)
 }
 
 // sizeRules runs size/embed/nooverlap over the selected kinds.
@@ -69,10 +72,58 @@ func sizeRules(w *World, r *Report, sel func(k *Kind) bool) {
 			r.OK("nooverlap", k.Name, "", pos, "", len(es.Recs) > 1)
 		}
 	}
+	builtRule(w, r, "size", sel)
 	var prem []string
 	for _, p := range premiseTable {
 		prem = append(prem, p.Kind+": "+p.Atom+" = "+p.To().String()+" — "+p.Reason)
 	}
 	sort.Strings(prem)
 	r.Extra["declared_length_premises"] = prem
+}
+
+// orderRule: children are encoded in the order the API put them into the list (append at the end, prepend
+// at the front, the others keeping their relative order). A builder that overwrites list elements in place
+// (a swap, an indexed assignment) changes the order of what was already added, or drops an element.
+func orderRule(w *World, r *Report) {
+	for _, k := range w.KindsL {
+		es := w.EncSummary(k)
+		if es == nil || !k.OwnMarshal {
+			continue
+		}
+		lists := map[string]bool{}
+		for _, rec := range es.Recs {
+			if rec.Kind == "child" && rec.Loop != nil && rec.Loop.List != "" {
+				lists[rec.Loop.List] = true
+			}
+		}
+		if len(lists) == 0 {
+			continue
+		}
+		for _, m := range w.methodsOf(k) {
+			if isCodecMethod(m.Decl.Name.Name) {
+				continue
+			}
+			fs := w.Interpret(m, "builder")
+			touched, bad := "", ""
+			for _, s := range fs.Stores {
+				p := strings.TrimSuffix(s.Path, "[]")
+				if !lists[p] {
+					continue
+				}
+				touched = p
+				if strings.HasSuffix(s.Path, "[]") {
+					bad = p
+				}
+			}
+			if touched == "" {
+				continue
+			}
+			pos := w.Pos(m.Decl.Pos())
+			if bad != "" {
+				r.Fail(VViolation, "order", m.Key, bad, pos, "the builder assigns to elements of "+bad+" in place: elements that were already added change position (or are lost), so the children are not encoded in the order the API was given them")
+			} else {
+				r.OK("order", m.Key, touched, pos, "the list is only extended (append / prepend of the new element around the old contents)", true)
+			}
+		}
+	}
 }
